@@ -8,6 +8,7 @@ import (
 	"os/exec"
 	"path/filepath"
 	"reflect"
+	"sort"
 	"strings"
 
 	"github.com/samsarahq/thunder/merge"
@@ -105,6 +106,24 @@ func OracleC17(res *Result) []Finding {
 			add("c17-ended-by-stale-close", "event %d: an asynchronous closeSubscription(%s) spawned by generation %d stopped generation %d, which had not asked for it",
 				ct.DoneIdx, ct.ID, ct.TaskGen, ct.ClosedGen)
 		}
+	}
+	// its reactive resources are released: every resource registered by a computation of a subscription
+	// that has ended (all of them once the connection closed) has had exactly one Cleanup call
+	for resN, n := range v.cleanups {
+		if n > 1 {
+			add("c17-resource-released-twice", "resource %d (generation %d) had %d Cleanup calls", resN, v.registered[resN], n)
+		}
+	}
+	missing := map[int][]int{}
+	for resN, gen := range v.registered {
+		if v.cleanups[resN] == 0 && gen >= 0 && gen < len(v.gens) && v.gens[gen].EndIdx >= 0 {
+			missing[gen] = append(missing[gen], resN)
+		}
+	}
+	for gen, rs := range missing {
+		sort.Ints(rs)
+		add("c17-resource-not-released", "%s (generation %d) has ended, %d of the resources its computations registered never had their Cleanup call: %v",
+			v.gens[gen].ID, gen, len(rs), rs)
 	}
 	// nothing runs, nothing is written after the end
 	for i, e := range res.Events {
